@@ -11,6 +11,10 @@ from c01run import *
 P = "Cppcms.C02.Props."
 OBLIGATIONS = [
     (P + "handler_exactly_once", "exit discipline regenerated from the source: after h(...) / starting the next async operation every protocol callback returns"),
+    (P + "no_crash_scgi", "SCGI: for all byte streams and segmentations no out-of-range index, no negative/huge resize, no strlen past the buffer"),
+    (P + "no_crash_fcgi", "FastCGI: likewise (cache never read into when full, front() only on non-empty vectors, unknown-role body large enough, negative CONTENT_LENGTH never reaches resize); model recursion budgets suffice"),
+    (P + "no_crash_http", "HTTP: likewise; header_.resize(size()-2) and bracket_counter_-- never wrap (parser invariant), with or without the 16 KiB cap firing"),
+    (P + "parser_invariant", "the parser invariant is kept by every non-returning step of the generated transition"),
 ]
 OBLIGATIONS_FILE = os.path.join(HERE, "c02_obligations.json")
 if os.path.exists(OBLIGATIONS_FILE):
@@ -72,6 +76,15 @@ def main():
 
     c.translate("c01.py")
     proved = c.prove(["Cppcms.C02.Props"], OBLIGATIONS, exe="c02_model")
+    # the C02 theorems live on the C01 models: audit those sources too
+    c01dir = os.path.join(LEAN, "Cppcms", "C01")
+    for f in sorted(os.listdir(c01dir)):
+        if f.endswith(".lean"):
+            src = strip_lean_comments(open(os.path.join(c01dir, f)).read())
+            for ln, line in enumerate(src.splitlines(), 1):
+                m = FORBIDDEN_RE.search(line)
+                if m:
+                    c.broke("audit", f"forbidden construct {m.group(0).strip()!r} at {f}:{ln}")
     if c.tier == "thorough" and proved:
         c.leanchecker(["Cppcms.C02.Props"])
     model = c.model_exe()
